@@ -47,9 +47,10 @@ Keys(v)  == [i \in 1..Len(Kvs(v)) |-> Kvs(v)[i][1]]
 \* ---------------------------------------------------------------------------------------------
 \* Leaves: Python == with NaN = NaN.  A datetime and a Timestamp of one instant are equal (the
 \* second is a subclass of the first).  Named deviation Datetime64Triangle: numpy/pandas == between
-\* an np.datetime64 and a datetime / Timestamp of the SAME instant is not eq's doing (numpy says
-\* datetime != datetime64 = Timestamp = datetime); with tri = FALSE they are kept apart, with
-\* tri = TRUE they are identified, and wherever the two readings differ nothing is pinned.
+\* an np.datetime64 and a datetime / Timestamp of the SAME instant is not eq's doing (it depends on
+\* the unit of the datetime64 and is not transitive: datetime != datetime64[D] == Timestamp ==
+\* datetime).  With tri = FALSE the datetime64 instants are kept apart from the others, with
+\* tri = TRUE they are identified; wherever the two readings differ nothing is pinned (Pin).
 \* ---------------------------------------------------------------------------------------------
 IsInstant(a) == Tag(a) \in {"d", "ts", "d64"}
 LeafEqG(u, v, tri) ==
